@@ -443,20 +443,25 @@ func reifyGetField(
 	// followed again on every level of a recursive target type.
 	active := opts.opts.activeFields
 	defer func() { opts.opts.activeFields = active }()
-	value, err := p.getValue(cfg, opts.opts, len(p.fields) > 1)
+	value, err := p.getForField(cfg, opts.opts, len(p.fields) > 1)
 	if err != nil {
-		if err.Reason() != ErrMissing {
-			return err
-		}
-		value = nil
+		return err
 	}
+	// messages spell paths with dots, whatever separator the tag is written with
+	name = p.dotted()
 
 	if isNilRef(opts.opts, value) {
+		// an explicit null is a value of its own: it reports its own source
+		meta := cfg.metadata
+		if value != nil {
+			meta = value.meta()
+		}
+
 		// When fieldType is a pointer and the value is nil, return nil as the
 		// underlying type should not be allocated.
 		if fieldType.Kind() == reflect.Ptr {
 			if err := tryRecursiveValidate(to, opts.opts, opts.validators); err != nil {
-				return raiseValidation(cfg.ctx, cfg.metadata, name, err)
+				return raiseValidation(cfg.ctx, meta, name, err)
 			}
 			return nil
 		}
@@ -465,7 +470,7 @@ func reifyGetField(
 		// their type has: the Initializer interface is not supported on them.
 		if k := fieldType.Kind(); k == reflect.Slice || k == reflect.Array {
 			if err := tryRecursiveValidate(to, opts.opts, opts.validators); err != nil {
-				return raiseValidation(cfg.ctx, cfg.metadata, name, err)
+				return raiseValidation(cfg.ctx, meta, name, err)
 			}
 			return nil
 		}
@@ -474,7 +479,7 @@ func reifyGetField(
 		// unpacked from a string like a primitive and left alone without a setting.
 		if fieldType == tRegexp {
 			if err := tryRecursiveValidate(to, opts.opts, opts.validators); err != nil {
-				return raiseValidation(cfg.ctx, cfg.metadata, name, err)
+				return raiseValidation(cfg.ctx, meta, name, err)
 			}
 			return nil
 		}
@@ -488,7 +493,7 @@ func reifyGetField(
 		// Primitive types return early when it doesn't implement the Initializer interface.
 		if fieldType.Kind() != reflect.Struct && !hasInitDefaults(fieldType) {
 			if err := tryRecursiveValidate(to, opts.opts, opts.validators); err != nil {
-				return raiseValidation(cfg.ctx, cfg.metadata, name, err)
+				return raiseValidation(cfg.ctx, meta, name, err)
 			}
 			return nil
 		}
@@ -500,13 +505,13 @@ func reifyGetField(
 			// an interface type listing InitDefaults is treated like any other
 			// interface: without a setting the value it holds is left alone
 			if err := tryRecursiveValidate(to, opts.opts, opts.validators); err != nil {
-				return raiseValidation(cfg.ctx, cfg.metadata, name, err)
+				return raiseValidation(cfg.ctx, meta, name, err)
 			}
 			return nil
 		} else if k != reflect.Struct && k != reflect.Map {
 			v := tryInitDefaults(to)
 			if err := tryRecursiveValidate(v, opts.opts, opts.validators); err != nil {
-				return raiseValidation(cfg.ctx, cfg.metadata, name, err)
+				return raiseValidation(cfg.ctx, meta, name, err)
 			}
 			to.Set(v)
 			return nil
